@@ -543,7 +543,7 @@ def run_corrupted(res, case, cfg, names, engine, witness, idx):
         signal.setitimer(signal.ITIMER_REAL, 0)
 
 
-def corruption(res, spec, idx, tier, case, plan, names):
+def corruption(res, spec, idx, tier, case, plan, names, wd=None):
     rng = rng_for(spec["seed"], ID, spec["chunk"], idx, "corrupt")
     # corrupt a randomly re-spelt config, so every accepted shape of every slot is a site
     rec = Rec()
@@ -565,10 +565,12 @@ def corruption(res, spec, idx, tier, case, plan, names):
     if tier == "quick":
         rng.shuffle(pairs)
         pairs = pairs[:120]
-    elif len(pairs) > 4000:
+    elif len(pairs) > 2500:
         rng.shuffle(pairs)
-        pairs = pairs[:4000]
+        pairs = pairs[:2500]
     for j, (p, w) in enumerate(pairs):
+        if wd is not None and j % 40 == 0:
+            wd.arm("corrupt idx=%d pair=%d" % (idx, j))
         bad = set_at(cfg, p, w)
         sl = slot(p)
         witness = {"path": list(p), "value": w, "slot": sl, "vtype": type(w).__name__,
@@ -606,7 +608,7 @@ def run_chunk(spec):
         out = metamorphic(res, spec, idx, tier)
         if out is not None and (j < ncorr or only):
             wd.arm("corrupt idx=%d" % idx)
-            corruption(res, spec, idx, tier, *out)
+            corruption(res, spec, idx, tier, *out, wd=wd)
     wd.disarm()
     return res.to_json()
 
